@@ -516,6 +516,9 @@ fn show_areas(a: &[Area]) -> String {
 pub fn run(tier: Tier) -> i32 {
     let mut run = Run::new("C10", tier.clone());
     let spec = Arc::new(C10 { thorough: tier.is_thorough() });
+    if let Some(art) = crate::common::replay_artefact() {
+        return crate::common::finish_replay("C10", &art, &|ws| ws.iter().map(|w| confirm_stexp(&*spec, w)).collect());
+    }
     let depth = if tier.is_thorough() { 3 } else { 2 };
     let out = run_stexp(Arc::clone(&spec), depth, crate::common::ncpu(), 1 << 30, if tier.is_thorough() { 1500 } else { 45 });
     st_evidence(&mut run, &out, depth, "mem_init_area / mem_init_zero (7 starts x 6 lengths incl. 0, before/inside/enclosing/abutting), mem_init_zero_anywhere (4 lengths), mem_init_anywhere (3), init_stack (3), mem_resize_section (first 4 non-code areas + absent x 6 sizes), mem_prot (4 masks + invalid), brk(0)/brk(+0x10)/brk(+0x1000) as guest syscalls; 5 initial machines (code at 0x1000 / 0x3000 / 0x400000, generated two-segment ELF, same after init_stack_program_start)");
